@@ -251,14 +251,14 @@ func (w *World) renameAliases(all map[*ssa.Function]bool) {
 			if used[f] || receiverPrefix(f) != receiverPrefix(m) {
 				continue
 			}
-			if sigText(cur[f], w.Main.Pkg) == sigs[m] {
+			if typesOnlySig(sigText(cur[f], w.Main.Pkg)) == typesOnlySig(sigs[m]) {
 				cands = append(cands, f)
 			}
 		}
 		// also unique among the missing ones with that receiver and signature
 		same := 0
 		for _, m2 := range missing {
-			if receiverPrefix(m2) == receiverPrefix(m) && sigs[m2] == sigs[m] {
+			if receiverPrefix(m2) == receiverPrefix(m) && typesOnlySig(sigs[m2]) == typesOnlySig(sigs[m]) {
 				same++
 			}
 		}
